@@ -15,6 +15,11 @@
 (*     doc): EncodeValidates is judged on the validator's verdict, the description's verdict    *)
 (*     must agree with it (otherwise the description is not faithful: DescVsValidator).          *)
 (*                                                                                              *)
+(*  kind = "rt": cog's own parser re-read an emitted document; Reparsed[ri] is the schema term of  *)
+(*     the IR it produced. TLC compares it with the IR the document was emitted from (RtViolated).   *)
+(*  `must` on an enc record: the document is a one-place invalid variant (or its Go re-encoding);    *)
+(*     if the IR rejects it, the emitted document must reject it too.                                 *)
+(*                                                                                              *)
 (* Report mode prints one FAIL line per violating record; Strict stops (self-test, replay).     *)
 EXTENDS EmitSchema, Json
 
@@ -22,6 +27,7 @@ CONSTANTS Strict
 Trace   == ndJsonDeserialize("trace.ndjson")
 Schemas == JsonDeserialize("schemas.json")
 Emitted == JsonDeserialize("emitted.json")
+Reparsed == JsonDeserialize("reparsed.json")    \* schema terms cog's own parser produced from emitted documents
 
 VARIABLE l
 TInit == l = 1
@@ -50,8 +56,22 @@ EncViolated(r) ==
   IN     (IF acc = r.judged THEN {} ELSE {D("SpecVsPython", <<>>, "")})
     \cup (IF r.judged => r.validator THEN {} ELSE {D("encode-validates", <<>>, "")})
     \cup (IF ea = r.validator THEN {} ELSE {D("DescVsValidator", <<>>, "")})
+    \* a one-place INVALID document (broken bound, non-member of an enum / constant, missing required field) that the IR
+    \* rejects must be rejected by the emitted document: "required-ness, constraints, enum values are carried over"
+    \cup (IF r.must /\ ~acc /\ r.validator THEN {D("accepts-invalid", <<>>, "")} ELSE {})
 
-Violated(r) == IF r.kind = "emit" THEN EmitViolated(r) ELSE EncViolated(r)
+\* round trip: cog's own parser read the emitted document back (Reparsed[r.ri]); for every object it declared, what the
+\* property lists (names of fields, required-ness, constraints, enum values, defaults) equals the IR the document was
+\* emitted from. Objects the parser did not declare (it only follows references from the entry point) are not compared.
+RtViolated(r) ==
+  LET sc  == Schemas[r.si]
+      rp  == Reparsed[r.ri]
+      exp == EmitDoc([defs |-> sc.defs, root |-> sc.root], sc.foreign, r.pkg)
+      got == EmitDoc([defs |-> rp.defs, root |-> rp.root], rp.foreign, "")
+      present == SelectSeq(exp, LAMBDA e : HasDef(got, e.name))
+  IN {D("rt-" \o d.c, d.p, d.w) : d \in DocDiffs(present, [defs |-> got, root |-> ""])}
+
+Violated(r) == CASE r.kind = "emit" -> EmitViolated(r) [] r.kind = "rt" -> RtViolated(r) [] OTHER -> EncViolated(r)
 
 Verdict == l = 1 \/ Violated(Step) = {} \/
            (~Strict /\ PrintT(<<"FAIL", ToJson([l |-> l - 1, diffs |-> Violated(Step)])>>))
